@@ -173,6 +173,32 @@ def run(chk):
             chk.ok("C09.complete", cl_.node, f"{cname} reports whether the consumed input ended on a stream / member boundary (eof)")
         else:
             chk.violation("C09.complete", cl_.node, cname, "eof property", f"{cname} cannot tell whether its stream is complete: truncation of that coding goes unnoticed")
+    # the member-boundary flag summarises the decompressor that will see the next input: it is decided after the last point of the call at
+    # which input is fed to a decompressor (the walk over concatenated members feeds, and may stop inside a member)
+    for cname in ("ZLibDecompressor", "ZSTDDecompressor"):
+        cl_ = CUm.classes.get(cname)
+        dsf = cl_.methods.get("decompress_sync") if cl_ is not None else None
+        if dsf is None:
+            continue
+        feeders = {name for name, m_ in {**{k: v for b_ in [cl_] for k, v in b_.methods.items()}, **(CUm.classes["ConcatDecompressionHandler"].methods if "ConcatDecompressionHandler" in CUm.classes else {})}.items()
+                   if name != "decompress_sync" and any(isinstance(c, ast.Call) and isinstance(c.func, ast.Attribute) and c.func.attr == "decompress" and "_decompressor" in norm.raw(c.func.value) for c in ast.walk(m_.node))}
+        gd = cfg_of(dsf.node)
+        def feeds(n_):
+            if not isinstance(n_.ast, ast.AST):
+                return False
+            for c in K.node_calls(n_):
+                if isinstance(c.func, ast.Attribute) and ((c.func.attr == "decompress" and "_decompressor" in norm.raw(c.func.value)) or (norm.raw(c.func.value) == "self" and c.func.attr in feeders)):
+                    return True
+            return False
+        fnodes = [n_ for n_ in gd.nodes if n_.in_finally_copy is None and feeds(n_)]
+        decide = {id(i.test) for i in ast.walk(dsf.node) if isinstance(i, ast.If) and any(isinstance(a, ast.Assign) and norm.raw(a.targets[0]) == "self._mid_member" for b_ in i.body + i.orelse for a in ast.walk(b_))}
+        if not fnodes or not decide:
+            chk.analysis_error(f"C09.complete: {cname}.decompress_sync: feed sites / member-boundary decision not found")
+            continue
+        for f_ in fnodes:
+            K.must_pass(chk, "C09.complete", dsf, [f_], lambda n_: (n_.kind == "test" and id(n_.ast) in decide) or K.node_has(n_, "self._mid_member = $V", "exec"),
+                        f"{cname}.decompress_sync: the member-boundary flag is decided after input was last fed to a decompressor",
+                        construct=K.short(f_.ast, 60), missing="the `_mid_member` decision after the members walk")
     # ---- C09.window: the zstd decoder's window is bounded too (it is memory the output limit never sees) ---------------------------------------
     zs = CUm.classes.get("ZSTDDecompressor")
     if zs is not None:
